@@ -236,7 +236,8 @@ class Token(MutableSequence[TK]):
         if symbol == '(name)':
             return cast(str, self.value)
         elif symbol == '(decimal)':
-            return str(self.value)
+            value = format(self.value, 'f')
+            return value if '.' in value else value + '.'
         elif symbol in SPECIAL_SYMBOLS:
             return repr(self.value).replace(r'\\', '\\')
         else:
